@@ -368,3 +368,15 @@ package redis
 //@   requires raw != nil && validbody(raw.body)
 //@   modifies nothing
 //@   ensures @shape result1 == nil ==> result0 != nil && result0.raw == raw && isnil(result0.children) && len(raw.body.Array) >= 2 && result0.childWait != nil
+
+// ---- C03/C01: split requests: children built by argument index -----------------------------
+
+//@ func (*mgetRequest).Split
+//@   prop C03 C01 C11
+//@   requires r != nil && r.raw != nil && validbody(r.raw.body) && len(r.raw.body.Array) >= 2 && isnil(r.children) && r.childWait != nil
+//@   modifies r.children
+//@   ensures @one-child-per-key len(result) == len(r.raw.body.Array) - 1 && result == r.children
+//@   ensures @child-i-is-get-key-i forall k int :: 0 <= k && k < len(result) ==> mgetchild(result[k], r.raw.body.Array, k+1)
+//@   let v = r.raw.body.Array
+//@   loop 0 invariant 1 <= i && i <= len(v) && len(sreqs) == i - 1 && cap(sreqs) == len(v) - 1 && fresh(sreqs) && v == old(r.raw.body.Array) && r.raw == old(r.raw) && r.raw.body == old(r.raw.body)
+//@   loop 0 invariant forall k int :: 0 <= k && k < len(sreqs) ==> mgetchild(sreqs[k], v, k+1) && fresh(sreqs[k]) && fresh(sreqs[k].body) && fresh(sreqs[k].body.Array)
